@@ -92,7 +92,8 @@ class Case:
 
 class Contract:
     def __init__(self, qualname, params, cases, requires=None, setup=None, props=(), loops=None, inline=(),
-                 tables=(), note="", body_model=None, frame_roots=None, callee=True, target=None):
+                 tables=(), note="", body_model=None, frame_roots=None, callee=True, target=None, verify=True,
+                 justified_by=None):
         self.qualname = qualname          # id of the contract (= the function's qualname for callee contracts)
         self.target = target or qualname  # module:qualname of the function it is about
         self.params = params
@@ -107,6 +108,8 @@ class Contract:
         self.body_model = body_model
         self.frame_roots = frame_roots
         self.as_context = None
+        self.verify = verify        # False: callee-only contract, justified by the lemma named in justified_by
+        self.justified_by = justified_by
         self.callee = callee        # False: the contract only describes the function under a unit-mode precondition
 
     # -- callee mode -----------------------------------------------------------------------------
@@ -121,6 +124,13 @@ class Contract:
             if n not in vals:
                 fn = f.func if isinstance(f, Wrapped) else f
                 vals[n] = _default_of(E, fn, n)
+        from pyvc import lib as _lib
+        for n in list(vals):
+            if isinstance(vals[n], SPy):
+                try:
+                    vals[n] = _lib.refine(E, vals[n])      # typed view when the path has established the type
+                except _lib.UseBeforeValidation:
+                    pass
         ctx = Ctx(E, vals)
         short = self.qualname.split(":")[1]
         if self.requires is not None:
